@@ -1,74 +1,77 @@
 import NasdaqModel.Model.SyncFacade
 /-
-C20 — concrete interleavings of the model of the *unchanged* code that end in a state in which no transition is
-enabled while a caller is still inside `future.result()`: the call never returns and never raises.
-Each run is replayed on the real classes by harness/c20.py on every run of the check (`witness C20` of the driver
-prints exactly these terms).  Import-free (the driver links this file).
+C20 — the interleavings that made calls block for ever in the library before the fixes 86c1975 / 1753c2b / 564383d
+(submit after stop, close_lock deadlock, forgotten second receive, send_unseq_data after close), now as REGRESSIONS:
+on the model of the repaired code each of them ends with every caller returned, the thread exited, and the outcomes the
+property demands.  The harness replays exactly these runs on the real classes on every check (`witness C20` of the
+driver prints these terms; corpus/C20 holds the same runs for when the Lean build is unavailable).
+Import-free (the driver links this file).
 -/
 namespace NasdaqModel.Witness.C20
 open NasdaqModel.SyncFacade
 
 def rep (n : Nat) (l : Label) : List Label := List.replicate n l
 
-/-- the run ends in a terminal state in which caller `i` is still waiting, with job `j`, and it is not a legitimate
-wait for the peer -/
-def hangsAt (cfg : Cfg) (run : List Label) (i : Nat) (j : Job) (alive : Bool) : Bool :=
+/-- the run is executable, ends in a state without enabled transition, every caller has finished, the executor thread
+has exited (or not), and the histories (oldest call first) are as given -/
+def endsWith (cfg : Cfg) (run : List Label) (alive : Bool) (hists : List (List (Op × Outcome))) : Bool :=
   match exec (init cfg) run with
   | none => false
   | some s =>
-    terminal s && s.loopAlive == alive &&
-    match s.callers[i]? with
-    | some c => c.pc == .wait && c.job == j && !legitWait s c
-    | none => false
+    terminal s && s.loopAlive == alive && s.callers.all (·.finished) && s.callers.map (·.hist.reverse) == hists
 
-/-! #### 1. submit after stop (DESIGN §6 #16)
+/-! #### 1. submit after stop
 T0 `send_msg` passes both `_must_be_active()` checks; T1 runs a complete `close()` (the loop thread exits);
-T0 then hands its coroutine to the stopped loop and waits for ever. -/
+T0 then hands its coroutine to the stopped loop: `_wait_for` sees the dead thread and raises StateError. -/
 def cfg1 : Cfg := { progs := [[.send], [.close]], peer := [] }
 def run1 : List Label :=
-  rep 3 (.caller 0) ++ rep 6 (.caller 1) ++ [.job 1] ++ rep 2 (.caller 1) ++ rep 6 .close ++ [.stop] ++
-  rep 2 (.caller 1) ++ [.caller 0]
+  rep 3 (.caller 0) ++ rep 6 (.caller 1) ++ [.job 1] ++ rep 2 (.caller 1) ++ rep 4 .close ++ [.stop] ++
+  rep 2 (.caller 1) ++ rep 2 (.caller 0)
 
-theorem C20_witness_submit_after_stop : hangsAt cfg1 run1 0 (.submitted .send) false = true := by decide
+theorem C20_regress_submit_after_stop :
+    endsWith cfg1 run1 false [[(.send, .state)], [(.close, .ok)]] = true := by decide
 
-/-! #### 2. close_lock deadlock
-T0 is in `close()` holding `close_lock`; the peer ends the session and the loop thread reaches
-`with self.close_lock` inside `on_close_coro` — it blocks (the whole loop thread); T0 then submits
-`initiate_close` and waits for a loop that can never run it.  Both threads wait for each other for ever. -/
+/-! #### 2. close() holding close_lock while the peer ends the session
+T0 is in `close()` holding `close_lock`; the peer ends the session, the loop thread enters `on_close_coro` (which no
+longer takes the lock); T0 submits `initiate_close` while the loop thread is inside the callback; the callback
+finishes, the loop stops without running the coroutine; T0's `_wait_for` raises StateError, `_shutdown` swallows it,
+waits for the event, joins: close() returns. -/
 def cfg2 : Cfg := { progs := [[.close]], peer := [.endOfSession] }
 def run2 : List Label :=
-  rep 2 (.caller 0) ++ [.peer] ++ rep 2 .close ++ rep 4 (.caller 0)
+  rep 2 (.caller 0) ++ [.peer] ++ rep 2 .close ++ rep 4 (.caller 0) ++ rep 2 .close ++ [.stop] ++ rep 4 (.caller 0)
 
-theorem C20_witness_close_lock_deadlock : hangsAt cfg2 run2 0 (.submitted .initClose) true = true := by decide
+theorem C20_regress_close_lock : endsWith cfg2 run2 false [[(.close, .ok)]] = true := by decide
 
-/-- in that state the loop thread is the one waiting for the lock held by T0 -/
-theorem C20_witness_close_lock_deadlock_shape :
-    (exec (init cfg2) run2).map (fun s => (s.closePc, s.lock)) = some (.wantLock, some (.caller 0)) := by decide
+/-- the state the old code deadlocked in: the loop thread is inside the callback, caller 0 owns the lock and has
+submitted — and now the loop's next statement IS enabled -/
+theorem C20_regress_close_lock_progress :
+    (exec (init cfg2) (run2.take 9)).map (fun s => (s.closePc, s.lock, (step s .close).isSome)) =
+      some (.inCb, some (.caller 0), true) := by decide
 
-/-! #### 3. two receives, one `_recv_task` slot
+/-! #### 3. two receives, one `_recv_task` slot  (library defect that REMAINS — DispatchableMessageQueue, C04's area)
 T0 and T1 both block in `receive()`; the queue remembers only T1's getter task.  `close()` by T2 cancels that one
-(T1 gets EndOfQueue); T0's coroutine is never woken, the loop stops, T0 waits for ever. -/
+(T1 gets EndOfQueue); T0's coroutine is never woken — but T0 no longer blocks for ever: when the loop thread has exited
+`_wait_for` raises StateError.  For C20 ("returns, raises the underlying error, or raises a timeout/state error") that is
+acceptable; the exception class is not the documented EndOfQueue. -/
 def cfg3 : Cfg := { progs := [[.recv], [.recv], [.close]], peer := [] }
 def run3 : List Label :=
   rep 3 (.caller 0) ++ [.job 0] ++ rep 3 (.caller 1) ++ [.job 1] ++ rep 6 (.caller 2) ++ [.job 2] ++
-  rep 2 (.caller 2) ++ rep 6 .close ++ [.stop] ++ rep 2 (.caller 2) ++ [.caller 1]
+  rep 2 (.caller 2) ++ rep 4 .close ++ [.stop] ++ rep 2 (.caller 2) ++ [.caller 1, .caller 0]
 
-theorem C20_witness_concurrent_receive_lost : hangsAt cfg3 run3 0 (.blocked 0) false = true := by decide
+theorem C20_witness_concurrent_receive_state_error :
+    endsWith cfg3 run3 false [[(.recv, .state)], [(.recv, .eoq)], [(.close, .ok)]] = true := by decide
 
-/-- … while the other two calls ended as documented -/
-theorem C20_witness_concurrent_receive_others :
-    (exec (init cfg3) run3).map (fun s => s.callers.map (·.hist)) =
-      some [[], [(.recv, .eoq)], [(.close, .ok)]] := by decide
+/-- … and this run is outside `okStep` (the second receive goes to wait while the first is waiting) -/
+theorem C20_witness_concurrent_receive_outside_ok : execOk (init cfg3) run3 = none := by decide
 
-/-! #### 4. `send_unseq_data` after `close()` returned does not raise the state error (it bypasses the executor) -/
+/-! #### 4. `send_unseq_data` after `close()` returned now raises the state error like every other call -/
 def cfg4 : Cfg := { progs := [[.close, .sendUnseq, .send]], peer := [] }
 def run4 : List Label :=
-  rep 6 (.caller 0) ++ [.job 0] ++ rep 2 (.caller 0) ++ rep 6 .close ++ [.stop] ++ rep 2 (.caller 0) ++
-  [.caller 0] ++ rep 2 (.caller 0)
+  rep 6 (.caller 0) ++ [.job 0] ++ rep 2 (.caller 0) ++ rep 4 .close ++ [.stop] ++ rep 2 (.caller 0) ++
+  rep 2 (.caller 0) ++ rep 2 (.caller 0)
 
-theorem C20_witness_unseq_after_close :
-    (exec (init cfg4) run4).map (fun s => s.callers.map (·.hist)) =
-      some [[(.send, .state), (.sendUnseq, .ok), (.close, .ok)]] := by decide
+theorem C20_regress_unseq_after_close :
+    endsWith cfg4 run4 false [[(.close, .ok), (.sendUnseq, .state), (.send, .state)]] = true := by decide
 
 def witnesses : List (String × Cfg × List Label) :=
   [("submit-after-stop", cfg1, run1), ("close-lock-deadlock", cfg2, run2),
